@@ -74,6 +74,13 @@ def _dump(payload, sub):
         for ti, name in sorted(cols):
             links.append(set_type(name, type='integer', resources=ti, on_error=schema_validator.ignore))
         opts['validator_options'] = {'on_error': schema_validator.drop}
+    if payload.get('extra_key') and not payload.get('redump_from'):
+        # a row step adds a key the schema does not declare to some rows: the writer cannot serialise those rows - the dump
+        # has to fail as a whole (no descriptor) or describe exactly what it wrote
+        def add_undeclared(row):
+            if row.get('_id') is not None and row['_id'] % 3 == 0:
+                row['undeclared_key'] = 1
+        links.append(add_undeclared)
     if payload.get('title') and not payload.get('redump_from'):
         # multi-byte text in the descriptor itself (bytes != characters)
         from dataflows import update_package
@@ -222,7 +229,7 @@ class C09(Prop):
     ASSUMPTIONS = ['number of data rows of a csv file = records parsed by the stdlib csv module minus the header; of a json file = length of the top-level array',
                    'package totals are compared with the sums over the resources recorded in the same written descriptor']
     REAL_VS_STUB = {'real': ['dataflows dumpers, csv/json writers, zipfile, the file system'], 'stub': ['ambient environment (TZ, umask, cwd, tempdir) set per dump']}
-    PROBES = ['zip-target', 'json-format', 'counters-renamed', 'counters-dotted', 'counter-disabled', 'filehash-in-path', 'empty-resource', 'multibyte-text', 'multibyte-text-in-descriptor', 'compact-descriptor', 'dumper-drops-invalid-rows', 're-dump-of-a-loaded-package', 'excel-format', 'second-dump-at-a-later-instant', 'earlier-dump-of-other-data-in-the-same-place', 'same-flow-object-dumps-twice', 'a-later-step-deletes-a-dumped-resource', 'a-later-step-reads-the-dumped-resources-in-lockstep']
+    PROBES = ['zip-target', 'json-format', 'counters-renamed', 'counters-dotted', 'counter-disabled', 'filehash-in-path', 'empty-resource', 'multibyte-text', 'multibyte-text-in-descriptor', 'compact-descriptor', 'dumper-drops-invalid-rows', 're-dump-of-a-loaded-package', 'excel-format', 'second-dump-at-a-later-instant', 'earlier-dump-of-other-data-in-the-same-place', 'same-flow-object-dumps-twice', 'a-later-step-deletes-a-dumped-resource', 'a-later-step-reads-the-dumped-resources-in-lockstep', 'rows-the-writer-cannot-serialise']
     TIERS = {'quick': dict(runs=700, wall=100, run_wall=300),
              'thorough': dict(runs=20000, wall=1700, run_wall=600)}
     SHRINK_FROZEN = ('fields',)
@@ -273,7 +280,7 @@ class C09(Prop):
             env2['tz'] = None
         return {'tables': tabs, 'empty': empty, 'opts': opts, 'corrupt': corrupt, 'redump': rng.random() < 0.3 and opts['format'] == 'csv', 'target': rng.choice(['path', 'path', 'zip']),
                 'title': rng.choice([None, None, 'plain', 'Données – 数据 \U0001F600']), 'clock': clock, 'env2': env2, 'prior': rng.random() < 0.25, 'same_flow_twice': rng.random() < 0.15,
-                'after': rng.choice([None, None, None, None, 'delete_first', 'delete_last', 'lockstep', 'lockstep'])}
+                'after': rng.choice([None, None, None, None, 'delete_first', 'delete_last', 'lockstep', 'lockstep']), 'extra_key': rng.random() < 0.05}
 
     def execute(self, sc, ctx):
         if not sc.get('tables'):
@@ -289,6 +296,8 @@ class C09(Prop):
             ctx.probe('json-format')
         if fmt == 'excel':
             ctx.probe('excel-format')
+        if sc.get('extra_key'):
+            ctx.probe('rows-the-writer-cannot-serialise')
         if sc.get('after') in ('delete_first', 'delete_last'):
             ctx.probe('a-later-step-deletes-a-dumped-resource')
         if sc.get('after') == 'lockstep' and len(sc['tables']) > 1:
@@ -326,7 +335,7 @@ class C09(Prop):
             out = os.path.join(d, 'out' if target == 'path' else 'out.zip')
             r = ctx.subrun(_dump, {'tables': sc['tables'], 'empty': sc.get('empty'), 'opts': opts, 'target': target, 'out': out, 'env': env, 'corrupt': sc.get('corrupt'), 'title': sc.get('title'),
                                    'clock': (sc.get('clock') or [None, None])[n], 'prior': sc.get('prior'),
-                                   'same_flow_twice': sc.get('same_flow_twice'), 'after': sc.get('after')})
+                                   'same_flow_twice': sc.get('same_flow_twice'), 'after': sc.get('after'), 'extra_key': sc.get('extra_key')})
             if r['status'] != 'ok':
                 if n == 0:
                     ctx.discard('dump raises: %s' % json.dumps(r.get('exc'))[:300])
